@@ -171,6 +171,10 @@ def shapes(tier):
         out.append(make_shape(conc, "uL", {"initial"}))
         out.append(make_shape(conc, "uLl", {"initial", "lower", "upper"}))
         out.append(make_shape(conc, "luL", {"initial", "final"}))
+        # ... when that task has no length the two accesses fall on one instant (concurrent buffers only)
+        if conc:
+            out.append(make_shape(conc, "uL", {"initial"}, kinds=["zero", "zero"]))
+            out.append(make_shape(conc, "luL", {"initial", "lower"}, kinds=["fixed", "var", "var"]))
     return out
 
 
